@@ -82,6 +82,9 @@ Proof. exact env_src_eq. Qed.
 Theorem C17_src_env_never_empty_channel : forall upper : bytes -> bytes, forall env i v F, upper v = F -> ~ In [] (Env_get_list upper env i v).
 Proof. exact (fun upper env i v F H => eq_ind_r (fun l => ~ In [] l) (env_never_empty_channel upper env i F) (env_list_src upper env i v F H)). Qed.
 
+Theorem C17_src_sqlite_lookup_is_model : forall rows i, Sqlite_get_authkey rows i = sql_get rows i.
+Proof. exact sqlite_src_eq. Qed.
+
 Print Assumptions C17_mem_hit.
 Print Assumptions C17_mem_miss.
 Print Assumptions C17_mem_exact.
@@ -105,3 +108,4 @@ Print Assumptions C17_src_memory_hit.
 Print Assumptions C17_src_multi_miss.
 Print Assumptions C17_src_env_lookup_is_model.
 Print Assumptions C17_src_env_never_empty_channel.
+Print Assumptions C17_src_sqlite_lookup_is_model.
